@@ -109,13 +109,16 @@ def run(eng: Engine, ck: Check):
             any((cmp_atom(e_) or ('',))[0] == 'is' and unparse(cmp_atom(e_)[1]) in got and is_none_const(cmp_atom(e_)[2]) and pol_ for e_, pol_, _ in eng.guards_at(rl, r))
         ck.ob('R-C02-ESCAPE', rl, r, 'the loop is left only on EOF (no message; the connection was closed by _read)', ok, f'{gs}', construct='reader loop exit on EOF only')
     # ---- (4) callback containment
-    pc = eng.func(CONN, 'DataConnection._perform_message_callback')
-    ck.visited(pc)
-    for x in calls_on(pc.node, 'on_message_received'):
+    # every place where a DataConnection hands a decoded message to the network (a helper of the reader loop, or the loop itself)
+    sites = [(m_, x) for m_ in eng.cls('DataConnection', CONN).methods.values() for x in calls_on(m_.node, 'on_message_received')]
+    ck.floor('R-C02-ESCAPE.callback', len(sites), 1)
+    for pc, x in sites:
+        ck.visited(pc)
         t = protected_by_try_catching(eng, pc, x, 'Exception', 'BaseException')
         ok = t is not None and not any(isinstance(n, ast.Raise) for h in t.handlers for n in walk_local(h))
         ck.ob('R-C02-ESCAPE', pc, x, 'an error in a message handler is logged, not propagated into the reader loop', ok, '', construct='callback contained')
-    ck.ob('R-C02-ESCAPE', pc, pc.node, 'nothing escapes _perform_message_callback', not esc.of(pc), f'{sorted(esc.of(pc))}', construct='callback escape set')
+        ck.ob('R-C02-ESCAPE', pc, pc.node, f'nothing escapes {pc.name} (the function that performs the message callback)', not esc.of(pc), f'{sorted(esc.of(pc))}',
+              construct='callback escape set')
     # ---- (5) first frame on an accepted connection
     opa = eng.func(NET, 'Network.on_peer_accepted')
     ck.visited(opa)
@@ -202,7 +205,19 @@ def run(eng: Engine, ck: Check):
             if isinstance(n, ast.For):
                 n_loops += 1
                 it = unparse(n.iter)
-                bounded = (isinstance(n.iter, ast.Call) and call_name(n.iter) == 'range') or it.endswith('_CACHED_FIELDS') or it.endswith('__subclasses__()')
+
+                def bounded_iter(e: ast.AST, depth=0) -> bool:
+                    """range(..), the field tuple, the subclass list, or a generator / comprehension / filter / enumerate .. over those"""
+                    s_ = unparse(e)
+                    if (isinstance(e, ast.Call) and call_name(e) == 'range') or s_.endswith('_CACHED_FIELDS') or s_.endswith('__subclasses__()'):
+                        return True
+                    if isinstance(e, (ast.GeneratorExp, ast.ListComp, ast.SetComp)):
+                        return all(bounded_iter(g_.iter, depth + 1) for g_ in e.generators)
+                    if isinstance(e, ast.Call) and isinstance(e.func, ast.Name) and e.func.id in ('filter', 'map', 'enumerate', 'zip', 'reversed', 'sorted', 'list', 'tuple', 'iter') and e.args:
+                        its = e.args[1:] if e.func.id in ('filter', 'map') else e.args
+                        return bool(its) and all(bounded_iter(a_, depth + 1) for a_ in its)
+                    return False
+                bounded = bounded_iter(expand_aliases(f, n.iter))
                 ck.ob('R-C02-PARSER-TOTAL', f, n, f'{f.qualname}: loop is bounded (range(count) / field tuple / subclass list)', bounded, f'iterates `{it}`',
                       construct=f'{f.qualname} loop over {alpha_key(n.iter)}')
                 if isinstance(n.iter, ast.Call) and call_name(n.iter) == 'range' and f.module.rel == PRIM and f.name == 'deserialize':
